@@ -253,6 +253,128 @@ Proof.
 Qed.
 
 (* ====================================================================== *)
+(** * Proof scripts that do not depend on the shape of the generated code
+
+    The generated file is re-translated from the Go source on every run, so
+    the scripts below must survive any semantics-preserving rewrite of that
+    source.  The rules followed everywhere:
+    - a test is never named by its syntactic shape: [go_case] picks the first
+      [if] of the goal, case-splits on one of its ATOMIC tests (descending
+      through [&&], [||] and [negb]) and lets [lia] discard the impossible
+      branches, so swapping the operands of a connective, reversing a
+      comparison or negating a test and swapping the branches changes nothing;
+    - the state of a loop is a tuple whose component order follows the order
+      of the assignments in the loop body: invariants are stated on named
+      components, read through a decoder found by [with_dec2/3/4], which try
+      the projections of the actual state tuple in every order. *)
+(* ====================================================================== *)
+
+(** case split on one atomic test of the boolean expression [c] *)
+Ltac bool_atom c :=
+  lazymatch c with
+  | andb ?a ?b => first [bool_atom a | bool_atom b]
+  | orb ?a ?b => first [bool_atom a | bool_atom b]
+  | negb ?a => bool_atom a
+  | true => fail
+  | false => fail
+  | context [if ?d then _ else _] => bool_atom d   (* a test nested in the test: innermost first *)
+  | _ => destruct c eqn:?
+  end.
+
+(** one step of case analysis on the first undecided [if] of the goal *)
+Ltac go_case :=
+  match goal with
+  | |- context [if ?c then _ else _] => bool_atom c; cbn [andb orb negb gbind fst snd]
+  end.
+
+(** full case analysis; arithmetically impossible branches are discarded *)
+Ltac go_cases := repeat (go_case; try (exfalso; lia)).
+
+(** the same, also splitting the tests of hypothesis [H] *)
+Ltac go_cases_in H := revert H; go_cases; intros H.
+
+(** the test at the head of a program (the first statement is an [if], or a
+    conditional assignment, or a call whose argument starts with one) *)
+Ltac prog_head_test p :=
+  lazymatch p with
+  | if ?c then _ else _ => c
+  | gbind ?m _ => prog_head_test m
+  end.
+
+(** case split on an atomic test of the [if] at the head of the program, for
+    goals [prog = _], [exists _, prog = _ /\ _], ... (up to three witnesses) *)
+Ltac go_head :=
+  let split_on p := (let c := prog_head_test p in bool_atom c; cbn [andb orb negb gbind fst snd]) in
+  lazymatch goal with
+  | |- ?p = _ => split_on p
+  | |- ?p = _ /\ _ => split_on p
+  | |- exists _, ?p = _ /\ _ => split_on p
+  | |- exists _ _, ?p = _ /\ _ => split_on p
+  | |- exists _ _ _, ?p = _ /\ _ => split_on p
+  end.
+
+(** follow the control flow as far as the tests at the head are decided by
+    the context; stops at the first statement that is not an [if] *)
+Ltac go_heads := cbn [andb orb negb gbind fst snd]; repeat (go_head; try (exfalso; lia)).
+
+(** a conditional assignment [if c { x = a }] at the head of the program:
+    name its value [x := if c then a else b] instead of splitting on [c] *)
+Ltac go_name_cond x :=
+  match goal with
+  | |- context [gbind (if ?c then GOk ?a else GOk ?b) ?k] =>
+      rewrite (gbind_if_ok c a b k); set (x := (if c then a else b)); cbv beta
+  end.
+
+(** use the recorded values of the atomic tests *)
+Ltac rw_bools :=
+  repeat match goal with
+  | H : ?b = true |- context [?b] => rewrite H
+  | H : ?b = false |- context [?b] => rewrite H
+  end; cbn [andb orb negb].
+
+(** decoders: every way of reading the components of a 2-, 3- or 4-tuple.
+    [k] is run with each decoder in turn until it succeeds; it must solve the
+    obligations that depend on the order (typically the preservation of a loop
+    invariant), so that a wrong order is rejected. *)
+Ltac with_dec2 T k :=
+  first [ k constr:(fun st : T => let '(a, b) := st in (a, b))
+        | k constr:(fun st : T => let '(a, b) := st in (b, a)) ].
+
+Ltac with_dec3 T k :=
+  first [ k constr:(fun st : T => let '(a, b, c) := st in (a, b, c))
+        | k constr:(fun st : T => let '(a, b, c) := st in (a, c, b))
+        | k constr:(fun st : T => let '(a, b, c) := st in (b, a, c))
+        | k constr:(fun st : T => let '(a, b, c) := st in (b, c, a))
+        | k constr:(fun st : T => let '(a, b, c) := st in (c, a, b))
+        | k constr:(fun st : T => let '(a, b, c) := st in (c, b, a)) ].
+
+Ltac with_dec4 T k :=
+  first [ k constr:(fun st : T => let '(a, b, c, d) := st in (a, b, c, d))
+        | k constr:(fun st : T => let '(a, b, c, d) := st in (a, b, d, c))
+        | k constr:(fun st : T => let '(a, b, c, d) := st in (a, c, b, d))
+        | k constr:(fun st : T => let '(a, b, c, d) := st in (a, c, d, b))
+        | k constr:(fun st : T => let '(a, b, c, d) := st in (a, d, b, c))
+        | k constr:(fun st : T => let '(a, b, c, d) := st in (a, d, c, b))
+        | k constr:(fun st : T => let '(a, b, c, d) := st in (b, a, c, d))
+        | k constr:(fun st : T => let '(a, b, c, d) := st in (b, a, d, c))
+        | k constr:(fun st : T => let '(a, b, c, d) := st in (b, c, a, d))
+        | k constr:(fun st : T => let '(a, b, c, d) := st in (b, c, d, a))
+        | k constr:(fun st : T => let '(a, b, c, d) := st in (b, d, a, c))
+        | k constr:(fun st : T => let '(a, b, c, d) := st in (b, d, c, a))
+        | k constr:(fun st : T => let '(a, b, c, d) := st in (c, a, b, d))
+        | k constr:(fun st : T => let '(a, b, c, d) := st in (c, a, d, b))
+        | k constr:(fun st : T => let '(a, b, c, d) := st in (c, b, a, d))
+        | k constr:(fun st : T => let '(a, b, c, d) := st in (c, b, d, a))
+        | k constr:(fun st : T => let '(a, b, c, d) := st in (c, d, a, b))
+        | k constr:(fun st : T => let '(a, b, c, d) := st in (c, d, b, a))
+        | k constr:(fun st : T => let '(a, b, c, d) := st in (d, a, b, c))
+        | k constr:(fun st : T => let '(a, b, c, d) := st in (d, a, c, b))
+        | k constr:(fun st : T => let '(a, b, c, d) := st in (d, b, a, c))
+        | k constr:(fun st : T => let '(a, b, c, d) := st in (d, b, c, a))
+        | k constr:(fun st : T => let '(a, b, c, d) := st in (d, c, a, b))
+        | k constr:(fun st : T => let '(a, b, c, d) := st in (d, c, b, a)) ].
+
+(* ====================================================================== *)
 (** * The translated list package against the model                        *)
 (* ====================================================================== *)
 
@@ -304,13 +426,19 @@ Proof.
     rewrite (has_key_some _ _ _ Hk). cbn [negb gbind]. rewrite !(lookup0_some _ _ _ _ Hk).
     destruct (rev x) as [|a r] eqn:Hr.
     + assert (Hx : x = []) by (apply (f_equal (@rev _)) in Hr; rewrite rev_involutive in Hr; exact Hr).
-      subst x. cbn [zlen List.length Z.of_nat]. change (0 <? 0) with false. cbv iota.
+      subst x. change (zlen (@nil bytes)) with 0. go_cases.
       eexists _, _, _. split; [reflexivity|]. split; [|reflexivity].
       split; [reflexivity|discriminate].
     + apply rev_cons_inv in Hr. subst x. set (p := rev r) in *. clearbody p.
-      assert (Hpos : (0 <? zlen (p ++ [a])) = true) by (rewrite zlen_app in *; change (zlen [a]) with 1 in *; pose proof (zlen_ge0 p); lia).
-      rewrite Hpos. rewrite isub_ok by lia.
-      rewrite gslice_ok by lia. rewrite zslice_last. cbn [gbind]. rewrite gidx_head. cbn [gbind].
+      assert (Hpos : 0 < zlen (p ++ [a])) by (rewrite zlen_app in *; change (zlen [a]) with 1 in *; pose proof (zlen_ge0 p); lia).
+      go_cases. rewrite isub_ok by lia.
+      (* the last element, read as [x[size-1:][0]] or as [x[size-1]] *)
+      first [ rewrite gslice_ok by lia; rewrite zslice_last; cbn [gbind]; rewrite gidx_head
+            | rewrite (gidx_ok (p ++ [a]) _ a)
+                by (try lia; rewrite zlen_app; change (zlen [a]) with 1;
+                    replace (Z.to_nat (zlen p + 1 - 1)) with (List.length p) by (unfold zlen; lia);
+                    rewrite nth_error_app2, Nat.sub_diag by lia; reflexivity) ].
+      cbn [gbind].
       eexists _, _, _. split; [reflexivity|]. split; reflexivity.
   - rewrite (has_key_none _ _ Hk). cbn [negb].
     eexists _, _, _. split; [reflexivity|]. split; [|reflexivity].
@@ -376,10 +504,10 @@ Proof.
   destruct (alookup (List_Items l) key) as [x|] eqn:Hk.
   - rewrite (has_key_some _ _ _ Hk). cbn [negb gbind]. rewrite !(lookup0_some _ _ _ _ Hk).
     destruct x as [|a r].
-    + change (0 <? zlen []) with false. cbv iota.
+    + change (zlen (@nil bytes)) with 0. go_cases.
       eexists. split; [reflexivity|]. split; [reflexivity|discriminate].
-    + assert (Hpos : (0 <? zlen (a :: r)) = true) by (rewrite zlen_cons; pose proof (zlen_ge0 r); lia).
-      rewrite Hpos, gidx_head. cbn [gbind].
+    + assert (Hpos : 0 < zlen (a :: r)) by (rewrite zlen_cons; pose proof (zlen_ge0 r); lia).
+      go_cases. rewrite gidx_head. cbn [gbind].
       eexists. split; reflexivity.
   - rewrite (has_key_none _ _ Hk). cbn [negb].
     eexists. split; [reflexivity|]. split; [reflexivity|discriminate].
@@ -420,11 +548,8 @@ Ltac go_arith :=
   | |- context [ineg ?a] => rewrite (ineg_ok a) by lia
   end.
 
-Ltac go_split :=
-  match goal with
-  | |- context [gbind (if ?c then _ else _) _] => destruct c eqn:?; cbn [gbind]
-  | |- context [if ?c then _ else _] => destruct c eqn:?; cbn [gbind]
-  end.
+(** a case split on one atomic test of the first remaining [if] (see [go_case]) *)
+Ltac go_split := go_case.
 
 Theorem go_LRange_eq l key s e : items_ok l -> int_ok s -> int_ok e ->
   exists g, go_List_LRange l key s e = GOk (l, g) /\ agrees [] g (l_lrange (List_Items l) key s e).
@@ -463,9 +588,9 @@ Proof.
     all: try (cbn [gbind]; eexists; split; reflexivity).
     all: try lia.
     all: intros i y r Hi Hy Hr; cbv beta.
-    all: match goal with |- context [if ?b then GOk (LBreak _) else _] => destruct b eqn:Hb end.
-    all: try (right; split; [reflexivity | apply fold_left_stable; intros y'; rewrite Hb; reflexivity]).
-    all: left; destruct (bytes_eqb y _); rewrite ?iadd_ok by lia; (split; [reflexivity | lia]).
+    all: go_cases.
+    all: first [ left; rewrite ?iadd_ok by lia; split; [reflexivity | lia]
+               | right; split; [reflexivity | apply fold_left_stable; intros y'; rw_bools; reflexivity] ].
   - rewrite (has_key_none _ _ Hk). cbn [negb].
     eexists. split; [reflexivity | split; [reflexivity | discriminate]].
 Qed.
@@ -479,9 +604,9 @@ Proof.
   intros _. unfold go_List_LSet. rewrite go_Size_eq. unfold l_lset, l_size.
   destruct (alookup (List_Items l) key) as [x|] eqn:Hk.
   - rewrite (has_key_some _ _ _ Hk). cbn [gbind negb]. rewrite !(lookup0_some _ _ _ _ Hk).
-    destruct ((zlen x <=? i) || (i <? 0)) eqn:Hi; cbn [fst snd].
-    + rewrite go_List_eta. reflexivity.
-    + rewrite gupd_ok by lia. cbn [gbind]. rewrite upd_nth_set_nth. reflexivity.
+    go_cases; cbn [fst snd].
+    all: first [ rewrite go_List_eta; reflexivity
+               | rewrite gupd_ok by lia; cbn [gbind]; rewrite upd_nth_set_nth; reflexivity ].
   - rewrite (has_key_none _ _ Hk). cbn [negb fst snd]. rewrite go_List_eta. reflexivity.
 Qed.
 
